@@ -376,10 +376,16 @@ class ExcelOpxWrapperNoData(ExcelOpxWrapper):
 
     class OpxRange(_OpxRange):
         def __new__(cls, range_data):
+            formulas = range_data.formula
+            if formulas is None:
+                # range starts on, but is not, a CSE Array formula
+                formulas = tuple(
+                    tuple(isinstance(value, str) and value.startswith('=')
+                          for value in row) for row in range_data.values)
             values = tuple(
                 tuple(ExcelOpxWrapperNoData.excel_value(*cell)
                       for cell in zip(row_f, row_v))
-                for row_f, row_v in zip(range_data.formula, range_data.values)
+                for row_f, row_v in zip(formulas, range_data.values)
             )
             return ExcelWrapper.RangeData.__new__(
                 cls, range_data.address, range_data.formula, values)
